@@ -689,6 +689,7 @@ func shareUpstream(ns []*mnode, deps func(int) []int, a, b int) bool {
 }
 
 func TestC11(t *testing.T) {
+	vh.Drive(t, vh.Spec[MsgCase]{Name: "messages", Quick: 60000, Thorough: 1500000, Gen: genMsg, Run: runMsg})
 	vh.Drive(t, vh.Spec[Case]{Name: "history", Quick: 400000, Thorough: 5000000, Gen: genCase, Run: runCase, Repeat: 20,
 		Sample: func(c Case) any {
 			s := []string{}
